@@ -34,6 +34,10 @@ CHECKS = {
             "Every simple lattice ring (all of G3, G4 up to 5/6 vertices) and valid polygons with 1-2 holes, in every combination of ring windings and ring rotations, at offsets up to 1e9 and scale 2^-20: signed/unsigned area against the exact rational area, Rect/Triangle against their polygon form, collection sums, winding_order for every rotation/reversal/repeated vertex against the sign of the exact area, orient(Default|Reversed).",
             "Trusted: exact integer shoelace. Tolerance 8 ulp(coordinate magnitude) x extent; the measured deviation/tolerance ratio is reported in the evidence.",
             "DESIGN.md §4 C05"),
+    "C06": ("E1-grid", "bounded exhaustive enumeration of lattice geometries and collection shapes vs exact rational / length-weighted centroid with dimension dominance",
+            "Every lattice shape incl. degenerate ones (flat and single-point polygons, zero-length lines, degenerate Rect/Triangle, holes of either winding) and every 1-/2-/3-member GeometryCollection over a 17-leaf alphabet in four nesting shapes, at offsets {0,1.5e8} and scales {1,2}; centroid compared with the exact areal centroid / length-weighted midpoints / point mean under the dominance rule; None iff empty; inside the convex hull.",
+            "Trusted: exact integer moments; linear weights in f64 (sqrt). Tolerance 1e-12 at the origin, 1e-6 at offset 1.5e8.",
+            "DESIGN.md §4 C06"),
 }
 
 NOT_YET = "check not built yet in this round (planned: bounded exhaustive exploration, see DESIGN.md §4)"
